@@ -52,6 +52,7 @@ def pixel_lemma(ctx, eng, ce):
     lem = Lem()
     st, w, ppu, oam = ppu_world(ctx, eng, ce)
     eng.modular = set()
+    eng.check_feas = False     # merging keeps the unrolled loop to one state; infeasible arms are discharged with the obligations
     S, vram, oamarr = scene(ctx, eng, st, ppu, oam)
     x, y = z3.BitVec("x", 8), z3.BitVec("y", 8)
     g = lambda n: pf(ctx, eng, st, ppu, "ppu.PPU", n)
@@ -66,6 +67,7 @@ def pixel_lemma(ctx, eng, ce):
     for h in hyp:
         st.pc.append(h)
     lem.covers.append(("lemma:pixel#cover", st.pcond()))
+    st0 = st.fork()
     eng.terminals, eng.obligs = [], []
     outs = eng.call_function(st, ctx.prog.func(P + "renderPixel").name, [ppu, x, y])
     want = rs.pixel(vram, oamarr, S, x, y)
@@ -80,7 +82,8 @@ def pixel_lemma(ctx, eng, ce):
         col.append(z3.And(s.pcond(), z3.Or(e[3] != want, e[4] != want, e[5] != want, e[6] != 0xFF)))
     lem.add("lemma:pixel:exactly-one-SetRGBA", z3.Or(*shape) if shape else z3.BoolVal(False))
     lem.add("lemma:pixel:at-x-y", z3.Or(*pos) if pos else z3.BoolVal(True))
-    lem.add("lemma:pixel:colour-equals-composition", z3.Or(*col) if col else z3.BoolVal(True))
+    ob = lem.add("lemma:pixel:colour-equals-composition", z3.Or(*col) if col else z3.BoolVal(True),
+                 info={"replay": lambda c, pr, o, res: pixel_replay(c, pr, o, res, w, st0, ppu, x, y, want, outs)})
     pv = [t.state.pcond() for t in eng.terminals] + [o.viol for o in eng.obligs if o.kind == "no-panic"]
     lem.add("lemma:pixel:no-panic", z3.Or(*pv) if pv else z3.BoolVal(False))
     lem.add("canary:pixel-is-always-white", z3.Or(*[z3.And(s.pcond(), [e for e in s.trace if e[0] == "px"][0][3] != 0xFF) for (s, _) in outs
@@ -88,6 +91,60 @@ def pixel_lemma(ctx, eng, ce):
     lem.notes.append("renderPixel: %d outcome(s) after merging" % len(outs))
     lem.stats = dict(eng.stats)
     return lem
+
+
+def pixel_replay(ctx, prop, ob, res, w, pre, ppu, x, y, want, outs):
+    """build the model's PPU/OAM state with the real types, give it a real 160x144 frame, call the real renderPixel and read the pixel"""
+    from engine.replay import GoGen, build_state, run_go_test, mval, HELPERS
+    import json
+    model = res.model
+    gen = GoGen(ctx, "github.com/scottyw/tetromino/gameboy/ppu")
+    gen.imports.add("image")
+    try:
+        inputs = build_state(gen, model, pre, [ppu.obj], w)
+    except ValueError as ex:
+        return {"status": "unconfirmed", "reason": str(ex)}
+    xv, yv = mval(model, x), mval(model, y)
+    body = ["objs := map[string]reflect.Value{}"] + gen.lines + [
+        "p := objs[%s].Interface().(*PPU)" % json.dumps(ppu.obj),
+        "p.frame = image.NewRGBA(image.Rect(0, 0, 160, 144))",
+        "out := map[string]interface{}{}",
+        "func() {",
+        "\tdefer func() { if r := recover(); r != nil { out[\"panic\"] = fmt.Sprint(r) } }()",
+        "\tp.renderPixel(%d, %d)" % (xv, yv),
+        "}()",
+        "c := p.frame.RGBAAt(%d, %d)" % (xv, yv),
+        "out[\"r\"], out[\"g\"], out[\"b\"], out[\"a\"] = c.R, c.G, c.B, c.A",
+        "b, _ := json.Marshal(out)", "os.WriteFile(os.Getenv(\"VERIF_REPLAY_OUT\"), b, 0644)"]
+    imps = "\n".join('\t"%s"' % i for i in sorted(gen.imports))
+    src = "package ppu\n\nimport (\n%s\n)\n\nvar _ = math.Pi\nvar _ = hex.EncodeToString\nvar _ unsafe.Pointer\n%s\nfunc TestVerifReplay(t *testing.T) {\n\t%s\n}\n" % (
+        imps, HELPERS, "\n\t".join(body))
+    rc, log, out = run_go_test(ctx, "github.com/scottyw/tetromino/gameboy/ppu", src)
+    small = {k: v for k, v in inputs.items() if not isinstance(v, dict) and ("Colour" in k or k.split(".")[-1] in ("scx", "scy", "wx", "wy", "ly", "lowTileData",
+             "highBgTileMap", "highWindowTileMap", "windowEnabled", "spritesEnabled", "bgEnabled"))}
+    rep = {"inputs": dict(small, x=xv, y=yv), "go_rc": rc, "function": "(*ppu.PPU).renderPixel"}
+    if out is None:
+        rep.update(status="error", log=log[-1500:])
+        return rep
+    rep["real"] = out
+    spec = mval(model, want)
+    rep["specification"] = spec
+    eng_col = None
+    for (s, _) in outs:
+        if z3.is_true(model.eval(s.pcond(), model_completion=True)):
+            px = [e for e in s.trace if e[0] == "px"]
+            if px:
+                eng_col = mval(model, px[0][3])
+    rep["engine"] = eng_col
+    if "panic" in out:
+        rep.update(status="confirmed", reason="real renderPixel panicked")
+    elif eng_col is not None and out["r"] != eng_col:
+        rep.update(status="engine-disagreement", diffs={"r": {"engine": eng_col, "real": out["r"]}})
+    elif out["r"] != spec or out["g"] != spec or out["b"] != spec or out["a"] != 255:
+        rep.update(status="confirmed", reason="real pixel %s differs from the composition %d" % (out, spec))
+    else:
+        rep.update(status="unconfirmed", reason="real pixel equals the specification on this model")
+    return rep
 
 
 def h_render(eng, st, args, site):
